@@ -70,4 +70,101 @@ def BProg.noiseUB (t : Modulus) (n : Nat) (inp : Nat → Nat × Nat) (plB : Nat 
     | some (f1, b1) => some (f1, n * b1 * plB k)
     | none => none
 
+/-! ### levelled programs: the same operations plus `mod_switch_to_next`; every value carries the chain index of its level, binary operations
+    on operands of different levels are refused (as `parms_id` mismatches are in the code), `mod_switch_to_next` at chain index 0 is refused
+    (`modSwitchToNextPlan`) -/
+
+/-- Σ_{k<m} S^k -/
+def geoSum (S : Nat) : Nat → Nat
+  | 0 => 0
+  | m+1 => 1 + S * geoSum S m
+
+inductive LProg where
+  | inp (i : Nat)
+  | neg (p : LProg)
+  | add (p q : LProg)
+  | sub (p q : LProg)
+  | mul (p q : LProg)
+  | mulPlain (p : LProg) (k : Nat)
+  | modSwitch (p : LProg)
+  deriving Repr, DecidableEq
+
+/-- evaluation: `chain c` is the level with chain index c; inputs carry their chain index -/
+def LProg.eval (chain : Nat → Level) (cts : Nat → Nat × Ct) (pls : Nat → Nat × RnsPoly) : LProg → R (Nat × Ct)
+  | .inp i => pure (cts i)
+  | .neg p => do
+    let a ← p.eval chain cts pls
+    let r ← ctNegate (chain a.1) a.2
+    pure (a.1, r)
+  | .add p q => do
+    let a ← p.eval chain cts pls
+    let b ← q.eval chain cts pls
+    if a.1 ≠ b.1 then .error .refused else do
+    let r ← ctTranslateBalanced (chain a.1) a.2 b.2 false
+    pure (a.1, r)
+  | .sub p q => do
+    let a ← p.eval chain cts pls
+    let b ← q.eval chain cts pls
+    if a.1 ≠ b.1 then .error .refused else do
+    let r ← ctTranslateBalanced (chain a.1) a.2 b.2 true
+    pure (a.1, r)
+  | .mul p q => do
+    let a ← p.eval chain cts pls
+    let b ← q.eval chain cts pls
+    if a.1 ≠ b.1 then .error .refused else do
+    let r ← bgvMultiply (chain a.1) a.2 b.2
+    pure (a.1, r)
+  | .mulPlain p k => do
+    let a ← p.eval chain cts pls
+    if a.1 ≠ (pls k).1 then .error .refused else do
+    let r ← ctMultiplyPlainNtt (chain a.1) a.2 (pls k).2
+    pure (a.1, r)
+  | .modSwitch p => do
+    let a ← p.eval chain cts pls
+    if a.1 = 0 then .error .refused else do
+    let r ← modSwitchScaleNext (chain a.1) a.2
+    pure (a.1 - 1, r)
+
+def LProg.ctInputs : LProg → List Nat
+  | .inp i => [i]
+  | .neg p | .modSwitch p => p.ctInputs
+  | .add p q | .sub p q | .mul p q => p.ctInputs ++ q.ctInputs
+  | .mulPlain p _ => p.ctInputs
+def LProg.plInputs : LProg → List Nat
+  | .inp _ => []
+  | .neg p | .modSwitch p => p.plInputs
+  | .add p q | .sub p q | .mul p q => p.plInputs ++ q.plInputs
+  | .mulPlain p k => k :: p.plInputs
+
+/-- a-priori bookkeeping (chain index, correction factor, size, bound on the ∞-norm of the phase).  `S` bounds ‖s‖₁.  Modulus switching:
+    `‖v'‖ ≤ ‖v‖ / q_L + t·Σ_{k<size} S^k` (rounding term of `mod_t_and_divide_q_last` spread over the powers of the secret), factor `·q_L^{-1} mod t` -/
+def LProg.noiseUB (chain : Nat → Level) (S : Nat) (inp : Nat → Nat × Nat × Nat × Nat) (plB : Nat → Nat × Nat) :
+    LProg → Option (Nat × Nat × Nat × Nat)
+  | .inp i => some (inp i)
+  | .neg p => p.noiseUB chain S inp plB
+  | .add p q | .sub p q =>
+    match p.noiseUB chain S inp plB, q.noiseUB chain S inp plB with
+    | some (l1, f1, s1, b1), some (l2, f2, s2, b2) =>
+      if l1 ≠ l2 then none else
+      match c02p_balance (chain l1).t f1 f2 with
+      | some (f, e1, e2) => some (l1, f, max s1 s2, e1 * b1 + e2 * b2)
+      | none => none
+    | _, _ => none
+  | .mul p q =>
+    match p.noiseUB chain S inp plB, q.noiseUB chain S inp plB with
+    | some (l1, f1, s1, b1), some (l2, f2, s2, b2) =>
+      if l1 ≠ l2 then none else some (l1, (f1 * f2) % (chain l1).t.value, s1 + s2 - 1, (chain l1).n * b1 * b2)
+    | _, _ => none
+  | .mulPlain p k =>
+    match p.noiseUB chain S inp plB with
+    | some (l1, f1, s1, b1) => if l1 ≠ (plB k).1 then none else some (l1, f1, s1, (chain l1).n * b1 * (plB k).2)
+    | none => none
+  | .modSwitch p =>
+    match p.noiseUB chain S inp plB with
+    | some (l1, f1, s1, b1) =>
+      if l1 = 0 then none else
+      some (l1 - 1, (f1 * (chain l1).tool.invQLastModT) % (chain l1).t.value, s1,
+        b1 / ((chain l1).q ((chain l1).size - 1)).value + (chain l1).t.value * geoSum S s1)
+    | none => none
+
 end HC
